@@ -7,6 +7,7 @@ package scen
 // of C01-C03 run on every live dataset after every op.
 
 import (
+	"bytes"
 	"encoding/binary"
 	"encoding/json"
 	"fmt"
@@ -29,13 +30,14 @@ func init() { Register("dsmgmt", dsMgmt) }
 type mgmtState struct {
 	ctxStore   *server.Store     // long-lived contextual store created before deletions
 	deletedIDs map[uint32]string // internal dataset ids of deleted incarnations
+	stale      map[string][]*server.Dataset // handles of deleted datasets, by the name they had
 	everNames  map[string]bool
 	sharedHit  bool
 }
 
 func isMgmt(op SDOp) bool {
 	switch op.Kind {
-	case "create", "delete", "rename", "gc", "restart":
+	case "create", "delete", "rename", "gc", "restart", "stalewrite":
 		return true
 	}
 	return false
@@ -59,6 +61,7 @@ func genMgmtCase(r *rand.Rand) SDCase {
 		return l
 	}
 	deleted := false
+	var deletedNames []string
 	for i := 0; i < n; i++ {
 		k := r.Intn(100)
 		ll := liveList()
@@ -105,6 +108,7 @@ func genMgmtCase(r *rand.Rand) SDCase {
 				}
 			}
 			deleted = true
+			deletedNames = append(deletedNames, nm)
 			tags["delete"] = true
 			c.Ops = append(c.Ops, SDOp{Kind: "delete", DS: nm})
 		case k < 86 && len(ll) > 0:
@@ -124,11 +128,19 @@ func genMgmtCase(r *rand.Rand) SDCase {
 			}
 			tags["rename"] = true
 			c.Ops = append(c.Ops, SDOp{Kind: "rename", DS: from, To: to})
-		case k < 93:
+		case k < 91:
 			if deleted {
 				tags["gc-after-delete"] = true
 			}
 			c.Ops = append(c.Ops, SDOp{Kind: "gc"})
+		case k < 95:
+			// a client that resolved a dataset before it was deleted (a multi-batch upload, a job sink)
+			// stores another batch through that handle afterwards
+			if len(deletedNames) > 0 {
+				nm := deletedNames[r.Intn(len(deletedNames))]
+				c.Ops = append(c.Ops, SDOp{Kind: "stalewrite", DS: nm, Ents: []model.Ent{gen.Entity(r, v, v.IDs[r.Intn(len(v.IDs))]), gen.Entity(r, v, v.IDs[r.Intn(len(v.IDs))])}})
+				tags["stale-handle-write"] = true
+			}
 		default:
 			tags["restart"] = true
 			c.Ops = append(c.Ops, SDOp{Kind: "restart"})
@@ -224,9 +236,30 @@ func (s *sdRun) applyMgmt(op SDOp) error {
 		}
 		s.m.Create(op.DS)
 		s.mg.everNames[op.DS] = true
+	case "stalewrite":
+		hs := s.mg.stale[op.DS]
+		if len(hs) == 0 {
+			return nil
+		}
+		h := hs[len(hs)-1]
+		esp := server.NewEntityStreamParser(s.core.Store)
+		var batch []*server.Entity
+		if err := esp.ParseStream(bytes.NewReader(gen.Payload(op.Ents, false)), func(e *server.Entity) error { batch = append(batch, e); return nil }); err != nil {
+			return err
+		}
+		// the write may be refused or accepted; either way nothing of it may become visible anywhere
+		if err := h.StoreEntities(batch); err != nil {
+			s.ctx.Out.Stat("c07_stale_writes_refused", 1)
+		} else {
+			s.ctx.Out.Stat("c07_stale_writes_accepted", 1)
+		}
 	case "delete":
 		if ds := s.core.Dsm.GetDataset(op.DS); ds != nil {
 			s.mg.deletedIDs[ds.InternalID] = op.DS
+			if s.mg.stale == nil {
+				s.mg.stale = map[string][]*server.Dataset{}
+			}
+			s.mg.stale[op.DS] = append(s.mg.stale[op.DS], ds)
 		}
 		if err := s.core.Dsm.DeleteDataset(op.DS); err != nil {
 			return err
@@ -259,6 +292,7 @@ func (s *sdRun) applyMgmt(op SDOp) error {
 		}
 		s.core = hub.OpenCore(s.dir)
 		s.mg.ctxStore = server.NewContextualStore(s.core.Store)
+		s.mg.stale = nil // handles do not survive the process
 	default:
 		return fmt.Errorf("unknown op kind %q", op.Kind)
 	}
